@@ -2,17 +2,31 @@ use crate::engine::{replay_prop, run_prop, RunOpts};
 
 pub mod common;
 pub mod c01;
+pub mod c02;
+pub mod c03;
+pub mod c04;
+pub mod c05;
+pub mod c06;
 pub mod c07;
+pub mod c13;
 pub mod c16;
 pub mod c17;
+pub mod c20;
 
 macro_rules! dispatch {
     ($id:expr, $f:ident, $($arg:expr),*) => {
         match $id {
             "C01" => $f(c01::C01, $($arg),*),
+            "C02" => $f(c02::C02, $($arg),*),
+            "C03" => $f(c03::C03, $($arg),*),
+            "C04" => $f(c04::C04, $($arg),*),
+            "C05" => $f(c05::C05, $($arg),*),
+            "C06" => $f(c06::C06, $($arg),*),
             "C07" => $f(c07::C07, $($arg),*),
+            "C13" => $f(c13::C13, $($arg),*),
             "C16" => $f(c16::C16, $($arg),*),
             "C17" => $f(c17::C17, $($arg),*),
+            "C20" => $f(c20::C20, $($arg),*),
             other => {
                 eprintln!("unknown property {}", other);
                 2
